@@ -50,6 +50,8 @@ def roundtrip(obj, method):
         return pickle.loads(pickle.dumps(obj))
     if method == 'deepcopy':
         return copy.deepcopy(obj)
+    if method == 'copy':             # shallow copy: __reduce_ex__ -> __getstate__ / __setstate__ of the root object
+        return copy.copy(obj)
     if method.startswith('io:'):
         with tempfile.TemporaryDirectory(prefix='c17_') as d:
             fn = os.path.join(d, 'x.' + method.split(':')[1])
@@ -209,6 +211,10 @@ class Compare:
                 return
             if isinstance(a, (float, np.floating)) and isinstance(b, (float, np.floating)) and (float(a) == float(b) or (a != a and b != b)):
                 return
+        if isinstance(a, np.dtype) and isinstance(b, np.dtype):      # (numpy has alias dtype classes, e.g. LongLongDType / Int64DType)
+            if leaf_key(a) != leaf_key(b) or a != b:
+                self.bad(path, 'value %r became %r' % (a, b))
+            return
         if type(a) is not type(b):
             self.bad(path, '%s %s became %s %s' % (type(a).__module__ + '.' + type(a).__name__, repr(a)[:60],
                                                   type(b).__module__ + '.' + type(b).__name__, repr(b)[:60]))
@@ -622,13 +628,15 @@ def run_object(spec):
     cls = set()
     classes_inside(obj, set(), cls)
     res['classes'] = sorted(cls)
-    if spec.get('wrap'):
-        obj = wrap_object(obj)
-    for method in spec['methods']:
+    plain = obj
+    todo = [(m, False) for m in spec['methods']] + [('wrapped+' + m, True) for m in spec.get('wrap_methods', [])]
+    for method, wrapped in todo:
         out = {}
         res['methods'][method] = out
+        if wrapped and obj is plain:
+            obj = wrap_object(plain)
         try:
-            loaded = roundtrip(obj, method)
+            loaded = roundtrip(obj, method.split('+')[-1])
         except Exception as e:
             tb = traceback.extract_tb(sys.exc_info()[2])
             where = [f for f in tb if '/tenpy/' in f.filename]
@@ -637,7 +645,7 @@ def run_object(spec):
             out['where'] = '%s:%s' % (os.path.basename(where[-1].filename), where[-1].name) if where else ''
             out['where_chain'] = ['%s:%s' % (os.path.basename(f.filename), f.name) for f in where[-6:]]
             continue
-        flat = method == 'hdf5:flat'
+        flat = method.endswith('hdf5:flat')
         try:
             c = Compare(flat=flat)
             c.cmp(obj, loaded)
@@ -653,7 +661,7 @@ def run_object(spec):
                 so['bad'] = [b for b in so['bad'] if b not in so0['bad']]
             out['sanity_n'] = so['n']
             out['sanity_bad'] = so['bad']
-            if spec.get('wrap'):
+            if wrapped:
                 out['problems'] += wrap_checks(obj, loaded)
             if spec.get('shape') and not flat and method in spec.get('shape_methods', [method]):
                 out['shape'] = canon_pair(obj, loaded, spec.get('max_nodes', 1500))
@@ -961,6 +969,9 @@ def main():
     fin, fout = sys.argv[1], sys.argv[2]
     payload = json.load(open(fin))
     kind = payload['kind']
+    if payload.get('cov_dir'):       # line coverage of the anchored functions (harness/c17_cover.py)
+        import c17_cover_impl
+        c17_cover_impl.start_cov()
     if kind == 'discover':
         res = discover()
     elif kind == 'objects':
@@ -978,6 +989,8 @@ def main():
         res = {'generators': {k: getattr(v, 'variants', 1) for k, v in c17_gen.GENERATORS.items()}}
     else:
         raise ValueError(kind)
+    if payload.get('cov_dir'):
+        c17_cover_impl.dump_cov(payload['cov_dir'], kind)
     with open(fout, 'w') as f:
         json.dump(res, f, default=str)
 
